@@ -97,6 +97,7 @@ package route
 //@   props C02
 //@   assigns atomStored
 //@   sets activeTable = t == nil ? old(activeTable) : t
+//@   sets publishedT[t] = t != nil
 //@   ensures nopanic
 //@   ensures t == nil ==> atomStored[addrOf(table)] == old(atomStored[addrOf(table)])
 //@   ensures t != nil ==> typeIs(atomStored[addrOf(table)], Table) && unbox(atomStored[addrOf(table)], Table) == t
@@ -928,5 +929,8 @@ package route
 //@   ensures err == nil ==> t != nil
 //@   # a JSON body of 'null' reaches this function as a nil pointer: rejected, never dereferenced
 //@   ensures defs == nil ==> err != nil
+//@   # the table keeps the tag arrays and option maps of the list it was built from (ownership ghosts, externs/custom.spec)
+//@   sets tableOfDefs[defs] = t
+//@   sets customBuilt[t] = err == nil
 //@   loop 1 invariant t != nil && fresh(t) && tableOK(t) && sepHosts(t) && defs != nil
 //@   loop 2 invariant t != nil && sepHosts(t)
